@@ -204,7 +204,7 @@ static void compoundSpaces(vf::Runner& R, bool th) {
   }
   // invariant-mixed and mixtures: kind x k x median x weight x shapes x follow-up
   {
-    std::vector<double> S = th ? std::vector<double>{0.1, 0.5, 1, 3, 10, 100} : std::vector<double>{0.5, 3};
+    std::vector<double> S = th ? std::vector<double>{0.1, 0.5, 1, 3, 10, 100} : std::vector<double>{0.1, 3};
     std::vector<double> W = {0.5, 0.1, 0, 1};
     int nS = (int)S.size(), nW = (int)W.size();
     R.space(std::string("compound:nested:kind5:K8:M2:W4:S") + str(nS) + "x" + str(nS) + ":F4", (uint64_t)5 * 8 * 2 * nW * nS * nS * 4, [=](uint64_t idx, vf::Case& c) {
